@@ -105,7 +105,23 @@ def build_operator(d):
         o = WeightedPauliString(PauliString(*d["p"]), cx(d["w"]))
         return o, o
     if c == "PauliOperator":
-        o = PauliOperator([WeightedPauliString(PauliString(*p), cx(w)) for p, w in d["items"]])
+        items = [WeightedPauliString(PauliString(*p), cx(w)) for p, w in d["items"]]
+        if "base" in d:                                  # a model Hamiltonian's own Pauli operator, extended string by string
+            b = d["base"]
+            f = _field("qubit", b["n"])
+            ham = (IsingHamiltonian(f, b["J"], b["h"], b["g"]) if b["r"] == "ising" else HeisenbergHamiltonian(f, b["J"], b["h"]))
+            o = ham.as_pauli_operator()
+        elif d.get("via") == "add":
+            o = PauliOperator()
+        else:
+            o = PauliOperator(items)
+            return o, o
+        for it in items:
+            o.add_pauli_string(it)
+        return o, o
+    if c == "FieldOperator" and "fexpr" in d:
+        from checks import C10
+        o = fexpr_build(C10.World(), d["L"], d["fexpr"])
         return o, o
     if c in ("FieldOperator", "FieldOperatorTerm") and "fterms" in d:
         # general operator patterns (any length, incl. odd, all-create, all-annihilate): builders of checks/C10.py
@@ -179,6 +195,7 @@ def operator_instances(rng, thorough):
         out.append({"cls": "WeightedPauliString", "p": items[0][0], "w": items[0][1]})
         out.append({"cls": "PauliString", "p": items[0][0]})
     out += field_term_instances(rng, thorough)
+    out += multi_term_instances(rng, thorough)
     for _ in range(12 if thorough else 4):
         n = rng.randint(1, 3)
         a = [[complex(round(rng.uniform(-1, 1), 3), round(rng.uniform(-1, 1), 3)) for _ in range(n)] for _ in range(n)]
@@ -234,6 +251,162 @@ def field_term_instances(rng, thorough):
         # operators of several terms (the flag of FieldOperator is derived from its terms)
         ts = [C10.hermitian_like(rng, L, 1), C10.hermitian_like_odd(rng, L, 0)]
         add(L, ts[:rng.randint(1, 2)], cls="FieldOperator")
+    return out
+
+
+# =============================================================================== operator-level flags of MULTI-term operators
+# The flag of a FieldOperator / PauliOperator is DERIVED from its terms.  A rule that looks at the terms one by one (or in pairs)
+# must get the multiplicities right: [A, A^dagger] is Hermitian, [A, A^dagger, A] = 2A + A^dagger is not, although every term
+# "has its adjoint among the others".  So the oracle "claims True => matrix Hermitian" runs on operators made by the library's
+# own +, @, adjoint(), sum() with repeated operands, unbalanced multiplicities, terms that are each other's adjoints (exactly,
+# with another factor, conjugated but not transposed), cancelling terms, and on the operators model Hamiltonians hand out.
+def fexpr_build(W, L, e):
+    """expression (JSON) -> FieldOperator on the ONE fermionic field W.field(L), through the public API only"""
+    from checks import C10
+    from qib.operator import FermiHubbardHamiltonian, MolecularHamiltonian, MolecularHamiltonianSymmetry
+    o = e["op"]
+    if o == "leaf":
+        _, terms = C10.undesc_terms(e["fterms"])
+        return W.op(L, terms)
+    if o == "adjoint":
+        return fexpr_build(W, L, e["x"]).adjoint()
+    if o == "add":
+        return fexpr_build(W, L, e["x"]) + fexpr_build(W, L, e["y"])
+    if o == "matmul":
+        return fexpr_build(W, L, e["x"]) @ fexpr_build(W, L, e["y"])
+    if o == "sum":                                       # Python's sum(): 0 + x0 + x1 + ... (__radd__, then __add__)
+        return sum(fexpr_build(W, L, x) for x in e["xs"])
+    if o == "fh":                                        # what a model Hamiltonian hands out (spinless, on the chain of L sites)
+        return FermiHubbardHamiltonian(W.field(L), float(e["t"]), float(e["u"]), False).as_field_operator()
+    if o == "mol":
+        tk = np.array([[complex(*w) for w in row] for row in e["tkin"]])
+        symm = MolecularHamiltonianSymmetry.HERMITIAN if e.get("herm", True) else MolecularHamiltonianSymmetry(0)
+        return MolecularHamiltonian(W.field(L), e["c"], tk, np.zeros((L,) * 4), symm).as_field_operator()
+    raise ValueError(o)
+
+
+def fexpr_shape(e):
+    o = e["op"]
+    if o == "leaf":
+        return e.get("name", "T")
+    if o == "adjoint":
+        return fexpr_shape(e["x"]) + "^"
+    if o in ("add", "matmul"):
+        return "(%s%s%s)" % (fexpr_shape(e["x"]), "+" if o == "add" else "@", fexpr_shape(e["y"]))
+    if o == "sum":
+        return "sum[%s]" % ",".join(fexpr_shape(x) for x in e["xs"])
+    return o
+
+
+def multi_term_instances(rng, thorough):
+    from checks import C10
+    out = []
+
+    def leaf(L, name, terms):
+        return {"op": "leaf", "name": name, "fterms": C10.desc_terms(L, terms)}
+    adj = lambda x: {"op": "adjoint", "x": x}
+    add = lambda x, y: {"op": "add", "x": x, "y": y}
+    mm = lambda x, y: {"op": "matmul", "x": x, "y": y}
+
+    def chain(xs, how):
+        if how == "sum":
+            return {"op": "sum", "xs": list(xs)}
+        e = xs[0]
+        if how == "left":
+            for x in xs[1:]:
+                e = add(e, x)
+            return e
+        e = xs[-1]                                       # right-nested: x0 + (x1 + (x2 + ...))
+        for x in reversed(xs[:-1]):
+            e = add(x, e)
+        return e
+
+    def emit(L, e):
+        out.append({"cls": "FieldOperator", "L": L, "fexpr": e, "shape": fexpr_shape(e)})
+    for L in (2, 3):
+        D = np.zeros((L, L), dtype=complex)
+        for i in range(L):
+            for j in range(i + 1, L):
+                D[i, j], D[j, i] = (i + 1) + 0.5j * (j + 1), -((i + 1) + 0.5j * (j + 1))
+        up = np.triu(np.arange(1, L * L + 1).reshape(L, L) * (1 + 0.25j), 1)
+        herm = np.diag(np.arange(1.0, L + 1)) + up + up.conj().T
+        v1 = np.array([1 + 0.5j * k for k in range(L)])
+        As = [("P", [([0, 0], D)]),                                  # superconducting pairing term sum D_jk a_j a_k
+              ("U", [([1, 0], up)]),                                 # upper-triangular hopping
+              ("C", [([1], v1)]),                                    # odd: a single creation operator
+              ("J", [([1, 0], 1j * np.eye(L))]),                     # anti-Hermitian: J + J^dagger = 0
+              ("PU", [([0, 0], D), ([1, 0], up)])]                   # an operand of two terms
+        if L == 2:
+            As.append(("Q", [([1, 1, 0], np.arange(1, 9).reshape(2, 2, 2) * (1 - 0.5j))]))
+        N = leaf(L, "N", [([1, 0], herm)])
+        for k, (nm, terms) in enumerate(As):
+            A = leaf(L, nm, terms)
+            A2 = leaf(L, "2" + nm, [(p, 2 * c) for p, c in terms])                   # the same operator pattern, other factor
+            Am = leaf(L, "-" + nm, [(p, -c) for p, c in terms])
+            Ac = leaf(L, nm + "*", [(p, np.conj(c)) for p, c in terms])              # conjugated, NOT transposed / reversed
+            B = leaf(L, "B", [([0, 0], 1j * D)] if nm != "P" else [([1, 0], up)])
+            for how in ("left", "right", "sum"):
+                emit(L, chain([A, adj(A), A], how))                                  # 2A + A^dagger
+                emit(L, chain([A, adj(A), adj(A)], how))
+                emit(L, chain([adj(A), A, A, adj(A), A], how))
+                emit(L, chain([A, adj(A)], how))                                     # balanced: Hermitian
+                emit(L, chain([A, A, adj(A), adj(A)], how))                          # balanced with multiplicity 2
+            emit(L, add(chain([N, A, adj(A)], "left"), A))                           # H1 + H2, H1 Hermitian, H2 = A
+            emit(L, add(A, chain([N, adj(A), A], "sum")))
+            emit(L, add(A, adj(A2)))                                                 # A + 2 A^dagger
+            emit(L, chain([A, adj(A), A2], "left"))
+            emit(L, chain([A2, adj(A), adj(A)], "left"))                             # 2A + 2A^dagger as [2A, A^, A^]: Hermitian
+            emit(L, add(A, Am))                                                      # cancels to zero
+            emit(L, chain([A, adj(A), Am], "left"))                                  # = A^dagger
+            emit(L, chain([A, adj(A), Am, adj(Am)], "sum"))                          # = 0
+            emit(L, add(A, Ac))
+            emit(L, chain([A, adj(A), Ac], "left"))
+            emit(L, chain([A, adj(A), B, adj(B), B], "left"))
+            emit(L, adj(chain([A, adj(A), A], "left")))
+            emit(L, add(add(A, adj(A)), adj(add(A, adj(A)))))                        # (A + A^) + (A + A^)^
+            emit(L, add(adj(adj(A)), chain([adj(A), adj(adj(A))], "left")))
+            if L == 2 and nm in ("P", "U", "C"):
+                S = add(A, adj(A))
+                emit(L, mm(S, S))                                                    # square of a Hermitian operator
+                emit(L, mm(S, add(B, adj(B))))                                       # product of two Hermitian ones: not Hermitian
+                AB = mm(A, B)
+                emit(L, chain([AB, adj(AB), AB], "left"))
+                emit(L, chain([AB, adj(AB)], "left"))
+                emit(L, add(mm(A, adj(A)), mm(A, adj(A))))                           # A A^ twice: every term Hermitian
+                emit(L, chain([mm(A, adj(A)), mm(adj(A), A), mm(A, A)], "left"))
+            # the multi-term operators model Hamiltonians hand out, plus unbalanced pairing terms
+            fh = {"op": "fh", "t": 1.0, "u": 0.5}
+            mol = {"op": "mol", "c": 0.25, "tkin": [[[float(np.real(v)), float(np.imag(v))] for v in row] for row in herm]}
+            for Hm in ((fh, mol) if k < 2 or thorough else (fh, mol)[k % 2:k % 2 + 1]):
+                emit(L, chain([Hm, A, adj(A), A], "left"))
+                emit(L, chain([Hm, A, adj(A)], "sum"))
+                emit(L, add(Hm, Hm))
+    # random multisets over {A, A^, B, B^, N, -A, 2A}
+    for _ in range(120 if thorough else 30):
+        L = 2
+        ta = C10.rand_term(rng, L, kmax=3, budget=16)
+        while len(ta[0]) < 1:
+            ta = C10.rand_term(rng, L, kmax=3, budget=16)
+        tb = C10.hermitian_like_odd(rng, L, rng.randint(0, 1))
+        A, B = leaf(L, "A", [ta]), leaf(L, "B", [tb])
+        N = leaf(L, "N", [C10.hermitian_like(rng, L, 1)])
+        pool = [A, adj(A), A, adj(A), B, adj(B), N, leaf(L, "-A", [(ta[0], -ta[1])]), leaf(L, "2A", [(ta[0], 2 * ta[1])])]
+        xs = [rng.choice(pool) for _ in range(rng.randint(2, 6))]
+        emit(L, chain(xs, rng.choice(["left", "right", "sum"])))
+    # Pauli operators: repeated strings, weights that are each other's conjugates / negatives, unbalanced; listed and merged
+    X, Y1, Y0, ZX, XI = [[0], [1], 0], [[1], [1], 1], [[1], [1], 0], [[1, 0], [0, 1], 0], [[0, 0], [1, 0], 0]
+    Q1, Q2 = [[1], [0], 0], [[1, 1], [0, 0], 0]
+    for P, Q in ((X, Q1), (Y1, Q1), (Y0, Q1), (ZX, Q2), (XI, Q2)):
+        for w in ([0, 1], [1, 1], [0.5, -0.25]):
+            wc, wm, wmc = [w[0], -w[1]], [-w[0], -w[1]], [-w[0], w[1]]
+            for items in ([[P, w], [P, wc], [P, w]], [[P, w], [P, wc]], [[P, w], [P, wm], [P, w]], [[P, w], [P, wmc], [P, w]],
+                          [[P, w], [P, wc], [Q, [1, 0]]], [[Q, [1, 0]], [P, w], [Q, [1, 0]], [P, wc], [P, w]],
+                          [[P, w], [P, wc], [P, wc], [P, w], [P, w]]):
+                for via in ("list", "add"):
+                    out.append({"cls": "PauliOperator", "items": [[list(map(list, p[:2])) + [p[2]], list(v)] for p, v in items], "via": via})
+    for base in ({"r": "ising", "n": 2, "J": 1.0, "h": 0.5, "g": -0.25}, {"r": "heis", "n": 2, "J": [1.0, -0.5, 2.0], "h": [0.25, 1.0, -0.75]}):
+        for items in ([[XI, [0, 1]], [XI, [0, -1]], [XI, [0, 1]]], [[ZX, [1, 1]], [ZX, [1, -1]]], [[Q2, [0, 0.5]]], [[XI, [0, 1]], [XI, [0, -1]]]):
+            out.append({"cls": "PauliOperator", "base": base, "items": [[list(map(list, p[:2])) + [p[2]], list(v)] for p, v in items]})
     return out
 
 
@@ -659,7 +832,199 @@ def flag_history_inputs(rng, thorough):
     return H
 
 
+# =============================================================================== caller-owned constructor containers
+# A flag that is answered on the strength of a constructor check (realness of J / h, Hermiticity of tkin / vint) describes the
+# values the object USES only if the object owns them.  So: build every parameter of every flagged class in a mutable container
+# the caller keeps (list, nested list, float / complex / object / Fortran arrays), construct, then write into the CALLER's
+# container (complex values, non-symmetric real values) and query: a claim True must hold of the matrix at that moment
+# (an object that is unaffected by the write passes trivially).
+OWNER_FORMS = ["list", "array-float", "array-complex", "array-object", "array-fortran", "array-int"]
+
+
+def owner_container(vals, shape, form):
+    """the values (list of [re, im], row-major) in a container of the given form; None when the form cannot hold them"""
+    a = np.array([complex(r, i) for r, i in vals]).reshape(tuple(shape))
+    real = bool(np.all(a.imag == 0))
+
+    def py(v):
+        v = complex(v)
+        return float(v.real) if v.imag == 0 else v
+    if form == "list":
+        def rec(x):
+            return [rec(y) for y in x] if x.ndim > 1 else [py(v) for v in x]
+        return rec(a) if a.ndim else [py(a)]              # a scalar parameter: a one-element list
+    if form == "array-int":                              # falls back to the narrowest numeric dtype that holds the values
+        if real and bool(np.all(a.real == np.round(a.real))):
+            return np.array(a.real, dtype=int)
+        form = "array-float"
+    if form == "array-float":
+        return np.array(a.real) if real else np.array(a)
+    if form == "array-complex":
+        return np.array(a)
+    if form == "array-fortran":
+        return np.asfortranarray(a.real if real else a)
+    if form == "array-object":
+        o = np.empty(a.shape, dtype=object)
+        for idx in np.ndindex(*a.shape):
+            o[idx] = py(a[idx])
+        return o
+    raise KeyError(form)
+
+
+def owner_write(c, idx, v):
+    """c[idx] = v in the caller's container; False when the container cannot take the value (complex into a float array)"""
+    v = complex(v[0], v[1])
+    v = float(v.real) if v.imag == 0 else v
+    try:
+        if isinstance(c, list):
+            for k in idx[:-1]:
+                c = c[k]
+            c[idx[-1]] = v
+        else:
+            if isinstance(v, complex) and c.dtype.kind in "fiub":
+                return False
+            c[tuple(idx)] = v
+    except (TypeError, ValueError, IndexError):
+        return False
+    return True
+
+
+def build_owned(d):
+    """-> (object asked, object with the matrix, {slot: caller's container})"""
+    import qib
+    from qib.operator import (PauliString, WeightedPauliString, PauliOperator, FieldOperator, FieldOperatorTerm, IFODesc, IFOType,
+                              IsingHamiltonian, HeisenbergHamiltonian, FermiHubbardHamiltonian, MolecularHamiltonian,
+                              MolecularHamiltonianSymmetry)
+    c = d["cls"]
+    own = {}
+    for slot, s in d["slots"].items():
+        own[slot] = owner_container(s["v"], s["shape"], s["as"])
+        if own[slot] is None:
+            raise ValueError("form cannot hold the values")
+    if c == "HeisenbergHamiltonian":
+        o = HeisenbergHamiltonian(_field("qubit", d["n"]), own["J"], own["h"])
+    elif c == "IsingHamiltonian":
+        o = IsingHamiltonian(_field("qubit", d["n"]), own["J"], own["h"], own["g"])
+    elif c == "FermiHubbardHamiltonian":
+        o = FermiHubbardHamiltonian(_field("fermi", d["n"]), own["t"], own["u"], False)
+    elif c == "MolecularHamiltonian":
+        symm = MolecularHamiltonianSymmetry.HERMITIAN
+        if d.get("varchange"):
+            symm = symm | MolecularHamiltonianSymmetry.VARCHANGE
+        o = MolecularHamiltonian(_field("fermi", d["n"]), d.get("c", 0.5), own["tkin"], own["vint"], symm)
+    elif c in ("FieldOperatorTerm", "FieldOperator"):
+        f = _field("fermi", d["n"])
+        pat = d.get("pat", [1, 0])
+        t = FieldOperatorTerm([IFODesc(f, IFOType.FERMI_CREATE if k else IFOType.FERMI_ANNIHIL) for k in pat], own["coeffs"])
+        op = FieldOperator([t])
+        return (t if c == "FieldOperatorTerm" else op), op, own
+    elif c == "PauliString":
+        o = PauliString(own["z"], own["x"], d["q"])
+    elif c == "WeightedPauliString":
+        o = WeightedPauliString(PauliString(own["z"], own["x"], d["q"]), complex(*d["w"]))
+    elif c == "PauliOperator":
+        o = PauliOperator([WeightedPauliString(PauliString(own["z"], own["x"], d["q"]), complex(*d["w"])),
+                           WeightedPauliString(PauliString(own["z"], own["x"], 0), 0.5)])
+    else:
+        raise KeyError(c)
+    return o, o, own
+
+
+def check_owner_history(ctx, pid, d):
+    method = "is_unitary" if pid == "C01" else "is_hermitian"
+    cls = d["cls"]
+    try:
+        obj, mobj, own = build_owned(d)
+    except Exception:
+        ctx.count("owner_history:refused:" + cls)
+        return None
+    if not callable(getattr(obj, method, None)):
+        return None
+    ctx.count("owner_history:constructed:" + cls)
+
+    def query(step):
+        try:
+            claim = bool(getattr(obj, method)())
+        except NotImplementedError:
+            return
+        except Exception:
+            ctx.count("owner_history:flag-raises-after-write:" + cls)     # no answer, hence no claim
+            return
+        if not claim:
+            return
+        try:
+            M = dense(mobj.as_matrix())
+        except Exception:
+            ctx.count("owner_history:claims-true-but-no-matrix:" + cls)   # e.g. a string with an entry 2: nothing to compare with
+            return
+        dev = float(np.abs(M @ M.conj().T - np.eye(len(M))).max()) if pid == "C01" else float(np.abs(M - M.conj().T).max())
+        if not dev <= TOLF:
+            ctx.fail("owner-history:%s.%s:claims-true-after-write-into-the-callers-container-but-matrix-is-not" % (cls, method),
+                     dict(d, flag_sweep=True, step=step), "unitary" if pid == "C01" else "Hermitian (or an object that owns its parameters)", dev)
+    query(-1)
+    for step, (slot, idx, v) in enumerate(d["writes"]):
+        if owner_write(own[slot], idx, v):
+            ctx.count("owner_history:writes")
+            query(step)
+        else:
+            ctx.count("owner_history:container-cannot-take-the-value")
+    return True
+
+
+def owner_history_inputs(rng, thorough):
+    H = []
+    pair = lambda xs: [[float(np.real(x)), float(np.imag(x))] for x in xs]
+    for form in OWNER_FORMS:
+        other = OWNER_FORMS[(OWNER_FORMS.index(form) + 1) % len(OWNER_FORMS)]
+        # Heisenberg: J, h vectors; the seed-like write first (a complex value into J), then h, then real values
+        for fa, fb in ((form, form), (form, other)):
+            H.append({"cls": "HeisenbergHamiltonian", "n": 2,
+                      "slots": {"J": {"as": fa, "shape": [3], "v": pair([1.0, -0.5, 2.0])}, "h": {"as": fb, "shape": [3], "v": pair([0.25, 1.0, -0.75])}},
+                      "writes": [["J", [1], [0.0, 0.25]], ["J", [1], [0.5, 0.0]], ["h", [2], [1.0, 1.0]], ["h", [0], [-2.0, 0.0]], ["J", [0], [0.0, -1.0]]]})
+        H.append({"cls": "HeisenbergHamiltonian", "n": 3,
+                  "slots": {"J": {"as": form, "shape": [3], "v": pair([0.0, 0.0, 1.0])}, "h": {"as": form, "shape": [3], "v": pair([0.0, 0.0, 0.0])}},
+                  "writes": [["h", [1], [0.0, 1.0]], ["J", [2], [1.0, 1.0]]]})
+        # Ising / Hubbard: scalar parameters inside 0-d / 1-element containers (refused by the isinstance guards: counted)
+        H.append({"cls": "IsingHamiltonian", "n": 2, "slots": {k: {"as": form, "shape": [], "v": pair([x])} for k, x in (("J", 1.0), ("h", 0.5), ("g", -0.25))},
+                  "writes": [["J", [], [0.0, 1.0]], ["g", [], [1.0, 1.0]]]})
+        H.append({"cls": "FermiHubbardHamiltonian", "n": 2, "slots": {k: {"as": form, "shape": [], "v": pair([x])} for k, x in (("t", 1.0), ("u", 0.5))},
+                  "writes": [["t", [], [0.0, 1.0]], ["u", [], [1.0, 1.0]]]})
+        # molecular: tkin (complex Hermitian and real symmetric), vint; complex and non-symmetric real writes
+        for n in (2, 3):
+            tkc = np.array([[1.0 + i if i == j else 0.5 + 0.25j * (i - j) for j in range(n)] for i in range(n)])
+            tkr = np.array([[1.0 + i if i == j else 0.5 for j in range(n)] for i in range(n)], dtype=complex)
+            vi = np.zeros((n,) * 4, dtype=complex)
+            for i in range(n):
+                for j in range(n):
+                    vi[i, j, i, j] = 0.5 + 0.25 * (i + j)
+            for tk, (ft, fv) in [(t, c) for t in (tkc, tkr) for c in sorted({(form, form), (form, "array-complex"), ("array-float", form)})]:
+                H.append({"cls": "MolecularHamiltonian", "n": n, "varchange": tk is tkr,
+                          "slots": {"tkin": {"as": ft, "shape": [n, n], "v": pair(tk.reshape(-1))}, "vint": {"as": fv, "shape": [n] * 4, "v": pair(vi.reshape(-1))}},
+                          "writes": [["tkin", [0, 1], [0.0, 1.0]], ["tkin", [0, 1], [0.75, 0.0]], ["tkin", [0, 1], [0.5, 0.0]], ["tkin", [1, 1], [2.0, 1.0]],
+                                     ["vint", [0, 1, 1, 0], [0.0, 0.5]], ["vint", [0, 1, 1, 0], [0.5, 0.0]], ["vint", [0, 0, 0, 0], [1.0, 1.0]]]})
+        # field operator terms (flag recomputed from the coefficients: must follow the write or own a copy)
+        for cls in ("FieldOperatorTerm", "FieldOperator"):
+            hm = np.array([[1.0, 0.5 - 0.25j], [0.5 + 0.25j, 2.0]])
+            H.append({"cls": cls, "n": 2, "slots": {"coeffs": {"as": form, "shape": [2, 2], "v": pair(hm.reshape(-1))}},
+                      "writes": [["coeffs", [0, 1], [0.0, 1.0]], ["coeffs", [1, 0], [0.0, -1.0]], ["coeffs", [0, 0], [1.0, 1.0]], ["coeffs", [0, 1], [2.0, 0.0]]]})
+        # Pauli strings: the check-matrix rows (z, x) are the caller's; Y <-> Z <-> X changes, an entry outside {0, 1}
+        if form in ("list", "array-float", "array-object", "array-int"):
+            for cls, q in (("PauliString", 0), ("PauliString", 1), ("WeightedPauliString", 1), ("PauliOperator", 0), ("PauliOperator", 3)):
+                H.append({"cls": cls, "q": q, "w": [0.0, 1.0] if q % 2 else [1.0, 0.0],
+                          "slots": {"z": {"as": form, "shape": [2], "v": pair([1, 0])}, "x": {"as": form, "shape": [2], "v": pair([1, 1])}},
+                          "writes": [["z", [0], [0.0, 0.0]], ["x", [0], [0.0, 0.0]], ["z", [1], [1.0, 0.0]], ["x", [1], [0.0, 0.0]], ["z", [0], [1.0, 0.0]]]})
+    return H
+
+
 def flag_histories(ctx, pid):
+    ctx.rules.append("caller-owned constructor containers: every vector / matrix / tensor parameter of Heisenberg (J, h), molecular (tkin, vint), "
+                     "field-operator (coeffs), Pauli-string (z, x) constructors (and the scalar parameters of Ising / Hubbard in 0-d containers: "
+                     "refused) as Python list / nested list / float, complex, object and Fortran arrays kept by the caller; after construction "
+                     "the caller writes complex and non-symmetric real values into ITS container; after every write a claim True must hold of "
+                     "the matrix at that moment")
+    for d in owner_history_inputs(ctx.rng, ctx.thorough):
+        if check_owner_history(ctx, pid, d):
+            ctx.nontriv(("owner-history", repr(d)[:1500]))
     ctx.rules.append("flag histories: query %s, mutate through add_pauli_string (merge and append paths) / weight, q, set_pauli, "
                      "refactor_phase, remove_zero_weight_strings / coefficient, matrix, target, method assignment, query again; every "
                      "answer True must hold of the matrix at that moment" % ("is_unitary()" if pid == "C01" else "is_hermitian()"))
@@ -675,7 +1040,9 @@ def replay_flag(ctx, pid, data):
     if not (isinstance(inp, dict) and inp.get("flag_sweep")):
         return False
     before = len(ctx.failing)
-    if "ops" in inp and "obj" in inp:
+    if "writes" in inp and "slots" in inp:
+        check_owner_history(ctx, pid, inp)
+    elif "ops" in inp and "obj" in inp:
         check_flag_history(ctx, pid, inp)
     elif "cls" in inp:
         check_operator_flag(ctx, pid, inp)
